@@ -43,6 +43,39 @@ def run_one(s):
             rec["pts"].append(U.q_of({v: [float(x) for x in co[v][i]] for v in vs}, row))
             rec["normals"].append([U.quant(x, 256) for x in nn.reshape(m, -1)[i]] if nn.numel() == m * d else [])
         sets.append(rec)
+    # one normal() call on a batch whose points belong to DIFFERENT parameter rows (every point with its own row)
+    if names:
+        ra = {n_: 0 for n_ in names}
+        rb = {n_: 2 for n_ in names}
+        rc = rows_for(names, 1, tid + 3)[0]
+        rec = {"kind": "mixed", "n": 18, "prm": {}, "exc": "", "nexc": "", "pts": [], "normals": [], "shape_ok": True}
+
+        def mixed():
+            parts, prm = [], []
+            for rw in (ra, rb, rc):
+                q = bd.sample_grid(n=6, params=U.mk_params(names, [rw]))
+                parts.append(q)
+                prm += [rw] * len(q)
+            pts = parts[0] | parts[1] | parts[2]
+            return pts, prm
+        r = watched(mixed, 8)
+        if r[0] != "ok":
+            rec["exc"] = r[1] if len(r) > 1 else "hang"
+        else:
+            pts, prm = r[1]
+            m = len(pts)
+            r2 = watched(lambda: bd.normal(pts, U.mk_params(names, prm)), 5)
+            if r2[0] != "ok":
+                rec["nexc"] = r2[1] if len(r2) > 1 else "hang"
+            else:
+                nn = torch.as_tensor(r2[1]).detach().to(torch.float64)
+                d = sum(U.SPACES[v] for v in vs)
+                rec["shape_ok"] = list(nn.shape) == [m, d]
+                co = pts.coordinates
+                for i in range(m):
+                    rec["pts"].append(U.q_of({v: [float(x) for x in co[v][i]] for v in vs}, prm[i]))
+                    rec["normals"].append([U.quant(x, 256) for x in nn.reshape(m, -1)[i]] if nn.numel() == m * d else [])
+        sets.append(rec)
     return {"bd_exc": "", "sets": sets}
 
 
